@@ -22,7 +22,8 @@ LEVEL_NOTE = ("Theorems are about Exec/RuntimeMachine.v, where execute_fields_se
               "pool could start the body).")
 RULE = ("mutations with 1-4 top-level fields (deferred or immediate) with nested deferred sub-fields / lists, a "
         "ResolverError moved over every top-level position, RuntimeErrors; all 4 configurations, all completion "
-        "orders (exhaustive within the tier's bound); plus queries of the same shapes (overlap must be possible); "
+        "orders (exhaustive within the tier's bound); three schema layouts (distinct roots; one ObjectType as query "
+        "and mutation root; mutation root also the nested object type); plus queries of the same shapes (overlap must be possible); "
         "non-trivial = a deferred configuration of a mutation with >= 2 top-level fields; distinct = distinct "
         "(program, configuration)")
 
@@ -41,7 +42,14 @@ def _corpus_programs():
     ps.append({"op": "mutation", "fields": [F(0, "C", ["list", False, "obj", [["obj", [F(1, "C", I(1))]], ["obj", [F(1, "C", I(2))]]]]),
                                             F(2, "C", I(2))]})
     ps.append({"op": "mutation", "fields": [F(0, "C", ["obj", [F(1, "C", ["exn", 4], sh="i"), F(2, "C", I(2))]]), F(3, "C", I(3))]})
+    # schema layouts: one ObjectType as query and mutation root; mutation root also nested type
+    ps.append(dict(ps[0], layout="shared"))
+    ps.append(dict(ps[1], layout="shared"))
+    ps.append(dict(ps[0], layout="mutnested"))
     return ps
+
+
+LAYOUT_CYCLE = ["distinct", "shared", "mutnested", "shared"]
 
 
 def corpus():
@@ -66,6 +74,10 @@ def generate(rng, tier):
     SHARD = 24 if quick else 10
     limit, samples = (720, 30) if quick else (5040, 200)
     cases = []
+    for i, p in enumerate(c08.eager_programs(quick, op="mutation")):
+        if i % (3 if quick else 1) == 0:
+            p["layout"] = LAYOUT_CYCLE[i % 4]
+            cases.extend(c08._cases_for(p, limit, samples, rng.randrange(1 << 30), configs=("poole",)))
     n_mut, n_q = (40, 6) if quick else (320, 40)
     for j in range(n_mut + n_q):
         op = "mutation" if j < n_mut else "query"
@@ -74,6 +86,7 @@ def generate(rng, tier):
         p = gen_sched.gen_program(rng, op, 1 if ntop == 1 else min(hi, ntop + 1), hi,
                                   p_exn=0.04 if j % 5 == 0 else 0.0, p_err=0.1,
                                   modes=("S", "P", "C", "C", "C"), top=(ntop, ntop), depth=2)
+        p["layout"] = LAYOUT_CYCLE[(j // 4) % 4]
         progs = [p]
         if op == "mutation" and (j % 2 == 0 or not quick):
             # failures at every position
@@ -100,7 +113,7 @@ def show_expr(case, obs):
 
 
 def nontrivial(case, obs):
-    return (case["config"] in ("aio", "aiot", "pool", "threads") and case["prog"]["op"] == "mutation"
+    return (case["config"] in ("aio", "aiot", "pool", "poole", "threads") and case["prog"]["op"] == "mutation"
             and len(case["prog"]["fields"]) >= 2)
 
 
